@@ -371,6 +371,93 @@ pub struct Runner {
     pub cur_built: bool,
 }
 
+
+/// the observable outcome of opening `bytes`: error class, or version / type / len /
+/// verify() result / a digest of the full stream
+fn open_outcome(r: fst::Result<raw::Fst<Vec<u8>>>, with_stream: bool) -> String {
+    match r {
+        Ok(f) => {
+            let v = match f.verify() {
+                Ok(()) => "verify ok".to_string(),
+                Err(fst::Error::Fst(raw::Error::ChecksumMissing)) => "verify missing".to_string(),
+                Err(fst::Error::Fst(raw::Error::ChecksumMismatch { expected, got })) => {
+                    format!("verify mismatch {} {}", expected, got)
+                }
+                Err(e) => format!("verify other {:?}", e),
+            };
+            let st = if with_stream {
+                let items = f.stream().into_byte_vec();
+                format!(" n={} {:016x}", items.len(), fnv64(show_kvs(&items).as_bytes()))
+            } else {
+                String::new()
+            };
+            format!("ok v={} ty={} len={} empty={} size={} | {}{}", version_of(f.as_bytes()), f.fst_type(), f.len(), f.is_empty(), f.size(), v, st)
+        }
+        Err(fst::Error::Fst(raw::Error::Format { size })) => format!("err format {}", size),
+        Err(fst::Error::Fst(raw::Error::Version { got, .. })) => format!("err version {}", got),
+        Err(e) => format!("err other {:?}", e),
+    }
+}
+
+/// Every way a user can turn `bytes` into an FST must behave like `Fst::new(bytes)`:
+/// `Map::new` / `Set::new` (+ `into_fst`, `as_fst`, `From<Fst>`), and `map_data` from an
+/// FST that was opened over OTHER bytes (a valid small one, and `other` if given).
+/// Returns the list of paths that differ. `with_stream` only for bytes known to be well-formed.
+pub fn open_paths_differ(bytes: &[u8], other: Option<&[u8]>, with_stream: bool) -> Vec<String> {
+    let want = open_outcome(raw::Fst::new(bytes.to_vec()), with_stream);
+    let mut bad = vec![];
+    let mut cmp = |label: &str, got: String| {
+        if got != want {
+            bad.push(format!("{} gives [{}] but Fst::new gives [{}]", label, got, want));
+        }
+    };
+    cmp("Map::new(..).into_fst()", open_outcome(fst::Map::new(bytes.to_vec()).map(|m| m.into_fst()), with_stream));
+    cmp("Set::new(..).into_fst()", open_outcome(fst::Set::new(bytes.to_vec()).map(|m| m.into_fst()), with_stream));
+    if let Ok(m) = fst::Map::new(bytes.to_vec()) {
+        let direct = raw::Fst::new(bytes.to_vec()).unwrap();
+        if m.len() != direct.len() || m.is_empty() != direct.is_empty() || m.as_fst().as_bytes() != direct.as_bytes() {
+            cmp("Map::len/is_empty/as_fst", format!("len={} empty={}", m.len(), m.is_empty()));
+        }
+        let m2: fst::Map<Vec<u8>> = fst::Map::from(raw::Fst::new(bytes.to_vec()).unwrap());
+        if m2.len() != direct.len() || m2.is_empty() != direct.is_empty() {
+            cmp("Map::from(Fst)", format!("len={} empty={}", m2.len(), m2.is_empty()));
+        }
+    }
+    if let Ok(m) = fst::Set::new(bytes.to_vec()) {
+        let direct = raw::Fst::new(bytes.to_vec()).unwrap();
+        if m.len() != direct.len() || m.is_empty() != direct.is_empty() || m.as_fst().as_bytes() != direct.as_bytes() {
+            cmp("Set::len/is_empty/as_fst", format!("len={} empty={}", m.len(), m.is_empty()));
+        }
+        let m2: fst::Set<Vec<u8>> = fst::Set::from(raw::Fst::new(bytes.to_vec()).unwrap());
+        if m2.len() != direct.len() || m2.is_empty() != direct.is_empty() {
+            cmp("Set::from(Fst)", format!("len={} empty={}", m2.len(), m2.is_empty()));
+        }
+    }
+    // map_data: the closure's result is what gets opened
+    let seed_fst = raw::Fst::from_iter_map(vec![("a", 1u64), ("b", 2)]).unwrap().into_inner();
+    let mut starts: Vec<(&str, Vec<u8>)> = vec![("a valid 2-key FST", seed_fst)];
+    if let Some(o) = other {
+        if o != bytes {
+            starts.push(("the current FST", o.to_vec()));
+        }
+    }
+    for (label, start) in starts {
+        if let Ok(f) = raw::Fst::new(start.clone()) {
+            let b2 = bytes.to_vec();
+            cmp(&format!("Fst::map_data from {}", label), open_outcome(f.map_data(move |_| b2.clone()), with_stream));
+        }
+        if let Ok(f) = fst::Map::new(start.clone()) {
+            let b2 = bytes.to_vec();
+            cmp(&format!("Map::map_data from {}", label), open_outcome(f.map_data(move |_| b2.clone()).map(|m| m.into_fst()), with_stream));
+        }
+        if let Ok(f) = fst::Set::new(start) {
+            let b2 = bytes.to_vec();
+            cmp(&format!("Set::map_data from {}", label), open_outcome(f.map_data(move |_| b2.clone()).map(|m| m.into_fst()), with_stream));
+        }
+    }
+    bad
+}
+
 fn lo_ok(lo: &(u8, Vec<u8>), k: &[u8]) -> bool {
     match lo.0 {
         1 => k >= &lo.1[..],
@@ -497,6 +584,11 @@ impl Runner {
                 // optional expectation: `expect=<kv>` / `expect=err`
                 self.expect = None;
                 self.cur_built = false;
+                let cur_bytes: Option<Vec<u8>> = self.cur.as_ref().map(|f| f.as_bytes().to_vec());
+                for d in open_paths_differ(&bytes, cur_bytes.as_deref(), true) {
+                    self.fail(format!("C10 C20 C01 {}: load {}", d, &t[1][..t[1].len().min(120)]));
+                }
+                self.checks += 1;
                 let o = self.open(bytes);
                 format!("load {}", o)
             }
@@ -586,6 +678,10 @@ impl Runner {
             None => format!("build {} | fin={}", res_s, out.fin),
             Some(bytes) => {
                 let sb = show_bytes(&bytes);
+                for d in open_paths_differ(&bytes, None, true) {
+                    self.fail(format!("C01 C10 {}: after {}", d, &line_of(t)[..line_of(t).len().min(160)]));
+                }
+                self.checks += 1;
                 let o = self.open(bytes);
                 self.cur_built = true;
                 if let Some(f) = &self.cur {
@@ -669,6 +765,12 @@ impl Runner {
         // open, then every metadata accessor and verify(): total (C20)
         let bytes = unhex(t[1]);
         let n = bytes.len();
+        // every other way of opening these bytes (wrappers, map_data) behaves like Fst::new
+        let cur_bytes: Option<Vec<u8>> = self.cur.as_ref().map(|f| f.as_bytes().to_vec());
+        for d in open_paths_differ(&bytes, cur_bytes.as_deref(), false) {
+            self.fail(format!("C20 C10 C08 {}: open {}", d, &t[1][..t[1].len().min(120)]));
+        }
+        self.checks += 1;
         match raw::Fst::new(bytes) {
             Ok(f) => {
                 let _ = (f.len(), f.is_empty(), f.fst_type(), f.size(), f.as_bytes().len());
@@ -695,6 +797,13 @@ impl Runner {
     fn cmd_corrupt(&mut self, t: &[&str]) -> String {
         // a built FST with one or more bytes altered: never certified as valid (C08)
         let bytes = unhex(t[1]);
+        // the damaged copy may also reach the user through map_data on the intact FST
+        // (`self.cur` is the FST these bytes were derived from) or through the wrappers
+        let cur_bytes: Option<Vec<u8>> = self.cur.as_ref().map(|f| f.as_bytes().to_vec());
+        for d in open_paths_differ(&bytes, cur_bytes.as_deref(), false) {
+            self.fail(format!("C08 C20 C10 {}: corrupt {}", d, &t[1][..t[1].len().min(120)]));
+        }
+        self.checks += 1;
         match raw::Fst::new(bytes) {
             Ok(f) => {
                 let v = match f.verify() {
